@@ -121,6 +121,17 @@ def build_lib(wd, name="lib", file_defs=None, defs=None, sources=None, tools=Fal
     srcs = list(sources if sources is not None else LIB_SOURCES)
     if tools:
         srcs.append("asmline.c")
+    paths = wrapped_sources(wd, name, srcs, file_defs)
+    o = os.path.join(wd, "%s_all.gb" % name)
+    must(["goto-cc"] + GOTO_CC_FLAGS + defs + ["--export-file-local-symbols"] + paths + list(extra) + ["-o", o])
+    return [o]
+
+
+def wrapped_sources(wd, name, srcs, file_defs):
+    """paths of the library sources; a source with per-file directives is
+    replaced by a generated wrapper.  Directives: "-DX=Y" -> #define, and any
+    string starting with '#' is emitted verbatim before the #include of the
+    real file (e.g. '#include "vf_os.h"', '#undef MEM_BUFFER')."""
     paths = []
     for s in srcs:
         real = os.path.join(REPO, "tools" if s == "asmline.c" else "src", s)
@@ -128,16 +139,17 @@ def build_lib(wd, name="lib", file_defs=None, defs=None, sources=None, tools=Fal
             w = os.path.join(wd, "%s_wrap_%s" % (name, s))
             with open(w, "w") as f:
                 for d in file_defs[s]:
-                    assert d.startswith("-D")
-                    k, _, v = d[2:].partition("=")
-                    f.write("#define %s %s\n" % (k, v if v else "1"))
+                    if d.startswith("#"):
+                        f.write(d + "\n")
+                    else:
+                        assert d.startswith("-D")
+                        k, _, v = d[2:].partition("=")
+                        f.write("#define %s %s\n" % (k, v if v else "1"))
                 f.write('#include "%s"\n' % real)
             paths.append(w)
         else:
             paths.append(real)
-    o = os.path.join(wd, "%s_all.gb" % name)
-    must(["goto-cc"] + GOTO_CC_FLAGS + defs + ["--export-file-local-symbols"] + paths + list(extra) + ["-o", o])
-    return [o]
+    return paths
 
 
 def build_common(wd, name, c_files, defs=()):
